@@ -174,8 +174,105 @@ let tools_case (fam : string) (toks : string list) : string =
     String.concat " " (List.map str_rec recs @ [match status with DumpOk -> "ok" | DumpErr -> "err" | DumpPanic -> "panic"])
   | _ -> failwith "bad tools case"
 
+(* ---------- lazyproto ---------- *)
+let z_of_dec (s : string) : z =
+  let neg = String.length s > 0 && s.[0] = '-' in
+  let a = if neg then String.sub s 1 (String.length s - 1) else s in
+  let h = Printf.sprintf "%x" (int_of_string a) in
+  z_of_hex (if neg then "-" ^ h else h)
+(* def syntax: [k,k:[...],...] *)
+let parse_def (s : string) : ldef =
+  let pos = ref 0 in
+  let peek () = if !pos < String.length s then s.[!pos] else '$' in
+  let rec def () : ldef =
+    if peek () <> '[' then failwith "def: expected [";
+    incr pos;
+    let entries = ref [] in
+    while peek () <> ']' do
+      let st = !pos in
+      while (match peek () with '0'..'9' | '-' -> true | _ -> false) do incr pos done;
+      let k = z_of_dec (String.sub s st (!pos - st)) in
+      let v = if peek () = ':' then (incr pos; Some (def ())) else None in
+      entries := (k, v) :: !entries;
+      if peek () = ',' then incr pos
+    done;
+    incr pos;
+    LDef (List.rev !entries) in
+  def ()
+let akind_of = function
+  | "bool" -> ABool | "string" -> AString | "bytes" -> ABytes | "uint32" -> AUInt32 | "int32" -> AInt32
+  | "sint32" -> ASInt32 | "uint64" -> AUInt64 | "int64" -> AInt64 | "sint64" -> ASInt64
+  | "fixed32" -> AFixed32 | "fixed64" -> AFixed64 | "float32" -> AFloat32 | "float64" -> AFloat64
+  | s -> failwith ("bad akind " ^ s)
+let path_of s = if s = "-" then [] else List.map z_of_dec (split '.' s)
+let str_aerr = function
+  | ENotFound -> "e:notfound" | ENotDefined -> "e:notdefined" | ENestingNotDefined -> "e:nestingnotdefined"
+  | EMismatch -> "e:mismatch" | EOther -> "e:other"
+let hexb_plain (b : n list) = hex_of_bytes b
+let str_aout = function
+  | AOk (AvNum z) -> "n:" ^ hex_of_z z
+  | AOk (AvBytes b) -> "b:" ^ hex_of_bytes b
+  | AOk (AvNums l) -> "l:" ^ str_zlist l
+  | AOk (AvBytesList l) -> "bl:" ^ String.concat ";" (List.map hex_of_bytes l)
+  | AErr e -> str_aerr e
+  | APanic -> "panic"
+let str_nouts = function
+  | NErr e -> str_aerr e | NPanic -> "panic"
+  | NList l -> "[" ^ String.concat "|" (List.map str_aout l) ^ "]"
+let str_range l = "r:" ^ String.concat "," (List.map (fun (t, b) -> dec_of_n t ^ (if b then "+" else "-")) l)
+let str_obs = function
+  | ObsOut o -> str_aout o | ObsNested n -> str_nouts n | ObsRange l -> str_range l
+let aop_of (t : string) : aop =
+  match split ':' t with
+  | ["F"; p; k; s] -> OpField (path_of p, akind_of k, s = "v")
+  | ["H"; p; tg; k; s] -> OpHelper (path_of p, z_of_dec tg, akind_of k, s = "v")
+  | ["N"; p; tg; inner; k; s] -> OpNested (path_of p, z_of_dec tg, z_of_dec inner, akind_of k, s = "v")
+  | ["R"; p] -> OpRange (path_of p)
+  | _ -> failwith ("bad aop " ^ t)
+let lazy_case (toks : string list) : string =
+  match toks with
+  | entry :: _mode :: d :: input :: ops ->
+    let d = parse_def d in
+    let input = bytes_of_hex input in
+    let r = if entry = "fn" then lazy_decode_fn d input else lazy_decode_dec d input in
+    (match r with
+     | LFail -> "err"
+     | LCrash -> "panic"
+     | LNil -> String.concat " " ("nil" :: List.map (fun t -> str_obs (observe None (aop_of t))) ops)
+     | LRes res -> String.concat " " ("ok" :: List.map (fun t -> str_obs (observe (Some res) (aop_of t))) ops))
+  | _ -> failwith "bad lazy case"
+
+let pop_of (t : string) : pop =
+  match split ':' t with
+  | ["D"; h; input] -> PDecode (nat_of_int (int_of_string h), bytes_of_hex input, O)
+  | ["F"; h; p; k; s] -> PField (nat_of_int (int_of_string h), path_of p, akind_of k, s = "v", [])
+  | ["N"; h; tg; inner; k; s] -> PNestedObs (nat_of_int (int_of_string h), z_of_dec tg, z_of_dec inner, akind_of k, s = "v", [])
+  | ["R"; h] -> PRange (nat_of_int (int_of_string h))
+  | ["C"; h] -> PClose (nat_of_int (int_of_string h))
+  | _ -> failwith ("bad pop " ^ t)
+let str_pobs = function
+  | QNil -> "nil" | QErr -> "err" | QOk -> "ok" | QOut o -> str_aout o | QNested n -> str_nouts n
+  | QRange l -> str_range l | QMisuse -> "misuse"
+(* pool picks: always the most recently returned object (maximal reuse); trunc outcomes: the max
+   buffer value with cap > n.  The theorem C14_isolation says the observations do not depend on these. *)
+let pool_case (toks : string list) : string =
+  match toks with
+  | mb :: d :: ops ->
+    let d = parse_def d in
+    let truncs = if mb = "-" then (fun _ -> []) else (fun _ -> [(nat_of_int (int_of_string mb), true)]) in
+    let rec go s ops acc = match ops with
+      | [] -> List.rev acc
+      | t :: r ->
+        (match pstep d false truncs s (pop_of t) with
+         | None -> List.rev ("panic" :: acc)
+         | Some (o, s') -> go s' r (str_pobs o :: acc)) in
+    String.concat " " (go pinit ops [])
+  | _ -> failwith "bad pool case"
+
 let dispatch (line : string) : string =
   match split ' ' line with
+  | "L" :: rest -> lazy_case rest
+  | "P" :: rest -> pool_case rest
   | "W" :: rest -> wire_case rest
   | "H" :: rest -> tools_case "H" rest
   | "D" :: rest -> tools_case "D" rest
